@@ -120,9 +120,9 @@ class C13:
             "depth >= 2; distinct by canonical type string")
 
     def zoo_h(self, tier, seed):
-        st, missing = zoo.quick_stacks(seed)
+        st, missing = zoo.thorough_stacks(seed) if tier == "thorough" else zoo.quick_stacks(seed)
         if missing:
-            raise core.InfraError(f"stack cover misses adjacent pairs {missing}")
+            raise core.InfraError(f"stack cover misses features {missing}")
         return zoo.ZooH("zoo_C13", st, "C13", shards=16), st
 
     def setup(self):
